@@ -114,6 +114,10 @@ class Job:
         timeout = timeout or self.timeout
         extra = []
         tried = 0
+        if len(self.violations) >= 4 and expect == "unsat":
+            # enough reproduced violations in this job: do not spend the budget on more of the same
+            self.record(name, "skipped", 0.0, bound, "skipped after 4 reproduced violations in this job")
+            return "skipped"
         while True:
             try:
                 r = LW.solve(list(conds) + extra, timeout_s=timeout, **solve_kw)
